@@ -28,6 +28,13 @@
 (* a function (used by Parse); the closed configuration checks that the    *)
 (* guards are total and exclusive and agree with BranchOf.                 *)
 (*                                                                         *)
+(* Approximations (both outside the C02 domain, diagnostic only): with    *)
+(* ~WsSeparates a white-space-only payload line is modelled as a           *)
+(* continuation line (the code needs >= 2 characters for that); an armor   *)
+(* header line that reaches the payload is an ordinary Single line.        *)
+(* Duplicate names keep the first position and the last value; names are   *)
+(* compared as given (the harness never uses two spellings of one name).   *)
+(*                                                                         *)
 (* raw = TRUE is the pre-pass of the _gpg_multivalued classes (Dsc,        *)
 (* Changes, BuildInfo) for non-str input: split_gpg_and_payload WITHOUT    *)
 (* SkipUseless, whose payload is then parsed by the ordinary reader        *)
@@ -38,7 +45,8 @@
 (*        class (VIEW drops the history): Totality, BranchAgrees, EofRule, *)
 (*        StoppedAbsorbing; EDGE lines.                                    *)
 (*   MC_Deb822Reader_bnd*.cfg  BSpec: every document of <= MaxPara        *)
-(*        paragraphs x <= MaxFields fields (<= MaxTotal fields in all) x   *)
+(*        paragraphs x <= MaxFields fields (<= MaxTotal fields in all;     *)
+(*        ShapeMode = 1: only two value shapes) x                          *)
 (*        values with empty/non-empty first line and 0..MaxCont            *)
 (*        continuation lines: RoundTrip, ParseOneOk, CommentInvariant,     *)
 (*        LeadingBlankInvariant, TrailingInvariant, SeparatorInvariant,    *)
@@ -47,7 +55,8 @@
 (*   TrimFirst = FALSE          -> RoundTrip                               *)
 (*   CommentEndsValue = TRUE    -> CommentInvariant                        *)
 (*   LeadingBlankSkipped = FALSE-> LeadingBlankInvariant                   *)
-(*   ArmorHeadersSkipped = FALSE-> ArmorInvariant ("Hash: ..." read as field)*)
+(*   ArmorHeadersSkipped = FALSE-> ArmorInvariant ("Hash: .." read as a     *)
+(*                                 field)                                  *)
 (*   GpgMvLeadOK = FALSE        -> GpgMvAgrees  (this one is what the      *)
 (*        CODE does: a leading comment followed by a blank line hides the  *)
 (*        paragraph from Dsc/Changes given a list or file; classified      *)
